@@ -187,10 +187,36 @@ func c03Run(w *kernel.Worker, j *c03Job, rep *kernel.Report) (*Fail, error) {
 		}
 		return setTun(w, "pqs", v)
 	}
+	// every query over the whole range, and three query forms over every window [timestamp of event i, timestamp of
+	// event j] (windows that begin after the first block, end before the last, cut inside a block)
+	type planned struct {
+		c03Query
+		S, E int64
+	}
+	var plan []planned
+	for _, q := range c03Queries {
+		plan = append(plan, planned{q, T0 - 5, T0 + 100000})
+	}
+	var tss []int64
+	for _, e := range evs {
+		if m, err := Flatten(e, "timestamp"); err == nil {
+			tss = append(tss, m.TS)
+		}
+	}
+	for i := range tss {
+		for k := i; k < len(tss); k++ {
+			if tss[k] < tss[i] {
+				continue
+			}
+			for _, q := range []c03Query{{"*", false, "window-all"}, {"v>1", false, "window-filter"}, {"* | stats count, sum(v) by g", false, "window-stats-by"}, {"v>1 | stats count, max(f) by g", false, "window-filter-stats-by"}} {
+				plan = append(plan, planned{q, tss[i], tss[k] + 1})
+			}
+		}
+	}
 	mkqs := func(idx string) []Q {
 		var qs []Q
-		for _, q := range c03Queries {
-			qs = append(qs, Q{Index: idx, Text: q.Text, Start: T0 - 5, End: T0 + 100000, Size: 100})
+		for _, q := range plan {
+			qs = append(qs, Q{Index: idx, Text: q.Text, Start: q.S, End: q.E, Size: 100})
 		}
 		return qs
 	}
@@ -252,7 +278,7 @@ func c03Run(w *kernel.Worker, j *c03Job, rep *kernel.Report) (*Fail, error) {
 	if err != nil {
 		return die(err)
 	}
-	rep.Eval(int64(2 * len(c03Queries)))
+	rep.Eval(int64(2 * len(plan)))
 	// which accelerator files exist for configuration k (non-vacuity)
 	var files map[string]int64
 	if err := w.Call("files", map[string]interface{}{"contains": "/" + kidx + "/"}, &files); err != nil {
@@ -276,14 +302,14 @@ func c03Run(w *kernel.Worker, j *c03Job, rep *kernel.Report) (*Fail, error) {
 	}
 	_ = set(501, 1, false)
 	fs := &Fails{}
-	for i, q := range c03Queries {
+	for i, q := range plan {
 		a, b := c03Norm(brs[i], q.Ordered), c03Norm(krs[i], q.Ordered)
 		if a != b {
 			fs.Add("C03/differs/"+q.Class+"/"+c03CfgClass(&j.Config),
-				fmt.Sprintf("dataset=%s query=%q\n  baseline (one open block, card 501, pqs off, procs 1): %s\n  config %s: %s\n  accelerator files: %v",
-					j.Dataset, q.Text, a, jstr(j.Config), b, sortedKeys(accel)))
+				fmt.Sprintf("dataset=%s query=%q window=[T0%+d,T0%+d)\n  baseline (one open block, card 501, pqs off, procs 1): %s\n  config %s: %s\n  accelerator files: %v",
+					j.Dataset, q.Text, q.S-T0, q.E-T0, a, jstr(j.Config), b, sortedKeys(accel)))
 		} else if !strings.Contains(a, "R[]M[]") {
-			rep.Nontrivial(j.Dataset + "|" + q.Text + "|" + jstr(j.Config))
+			rep.Nontrivial(j.Dataset + "|" + q.Text + fmt.Sprint(q.S, q.E) + "|" + jstr(j.Config))
 		}
 	}
 	return fs.Result(), nil
